@@ -136,3 +136,94 @@ pub(crate) fn snap_heap<T: Ord>(
         error: res.err(),
     }
 }
+
+/// Instrumented stand-ins for the atomic types the primitives use outside of
+/// their internal lock (the handle counters of the shared channels).
+///
+/// Every operation is preceded by a [`sched_point`], so a simulated scheduler
+/// can interleave threads around each atomic access - also around accesses
+/// that a later change adds. Without an installed callback the types behave
+/// exactly like the `core` ones.
+pub mod atomic {
+    use super::sched_point;
+    use core::sync::atomic::Ordering;
+
+    /// See [`core::sync::atomic::AtomicUsize`]
+    #[derive(Debug, Default)]
+    pub struct AtomicUsize(core::sync::atomic::AtomicUsize);
+
+    impl AtomicUsize {
+        /// See [`core::sync::atomic::AtomicUsize::new`]
+        pub const fn new(v: usize) -> Self {
+            AtomicUsize(core::sync::atomic::AtomicUsize::new(v))
+        }
+        /// See [`core::sync::atomic::AtomicUsize::load`]
+        pub fn load(&self, order: Ordering) -> usize {
+            sched_point("atomic::load");
+            self.0.load(order)
+        }
+        /// See [`core::sync::atomic::AtomicUsize::store`]
+        pub fn store(&self, v: usize, order: Ordering) {
+            sched_point("atomic::store");
+            self.0.store(v, order)
+        }
+        /// See [`core::sync::atomic::AtomicUsize::swap`]
+        pub fn swap(&self, v: usize, order: Ordering) -> usize {
+            sched_point("atomic::swap");
+            self.0.swap(v, order)
+        }
+        /// See [`core::sync::atomic::AtomicUsize::fetch_add`]
+        pub fn fetch_add(&self, v: usize, order: Ordering) -> usize {
+            sched_point("atomic::fetch_add");
+            self.0.fetch_add(v, order)
+        }
+        /// See [`core::sync::atomic::AtomicUsize::fetch_sub`]
+        pub fn fetch_sub(&self, v: usize, order: Ordering) -> usize {
+            sched_point("atomic::fetch_sub");
+            self.0.fetch_sub(v, order)
+        }
+        /// See [`core::sync::atomic::AtomicUsize::compare_exchange`]
+        pub fn compare_exchange(
+            &self,
+            current: usize,
+            new: usize,
+            success: Ordering,
+            failure: Ordering,
+        ) -> Result<usize, usize> {
+            sched_point("atomic::compare_exchange");
+            self.0.compare_exchange(current, new, success, failure)
+        }
+        /// See [`core::sync::atomic::AtomicUsize::compare_exchange_weak`]
+        pub fn compare_exchange_weak(
+            &self,
+            current: usize,
+            new: usize,
+            success: Ordering,
+            failure: Ordering,
+        ) -> Result<usize, usize> {
+            sched_point("atomic::compare_exchange_weak");
+            self.0.compare_exchange_weak(current, new, success, failure)
+        }
+        /// See [`core::sync::atomic::AtomicUsize::fetch_update`]
+        pub fn fetch_update<F>(
+            &self,
+            set_order: Ordering,
+            fetch_order: Ordering,
+            f: F,
+        ) -> Result<usize, usize>
+        where
+            F: FnMut(usize) -> Option<usize>,
+        {
+            sched_point("atomic::fetch_update");
+            self.0.fetch_update(set_order, fetch_order, f)
+        }
+        /// See [`core::sync::atomic::AtomicUsize::get_mut`]
+        pub fn get_mut(&mut self) -> &mut usize {
+            self.0.get_mut()
+        }
+        /// See [`core::sync::atomic::AtomicUsize::into_inner`]
+        pub fn into_inner(self) -> usize {
+            self.0.into_inner()
+        }
+    }
+}
